@@ -9,9 +9,12 @@
     `ExtractStats` with the real `AssembleFile` (N = 1) on generated cases.
   * `Model/AssembleConc.lean` — N concurrent workers over one shared file, every file operation a
     step, everything a worker writes while copying or cloning from a seed *arbitrary* but inside
-    its own segment.  Tie: the confinement theorems below (which is all the machine assumes about
-    `WriteInto`), the regenerated order of operations, and monitors on real runs with N in 2..8
-    under scheduling noise at the yield hooks.
+    its own segment.  Tie: trace validation — the real `AssembleFile` runs with 2..4 workers under a
+    cooperative scheduler (hooks `verifAsm`), and the recorded events (jobs received, every copy,
+    clone and zero fill with its bytes, every re-hash and in-place verdict, self-seed lookups and
+    publications) must be a run of the machine ending in the same file (`asmconc.accept`,
+    `accepted_trace_safe`); besides that the confinement theorems below, the regenerated order of
+    operations, and monitors on real runs with N in 2..8 under scheduling noise at the yield hooks.
   Helper lemmas live in `Proofs/Assemble*.lean`, `Proofs/AsmFile.lean`, `Proofs/FileLemmas.lean`.
 -/
 import Desync.Proofs.AssembleComplete
@@ -135,6 +138,21 @@ theorem selfseed_offers_settled {e : AsmConc.Env} {blob prior : Bytes} {n : Nat}
     readUpTo s.file (e.startOf p) (e.sizeOf p) = AsmConc.chunkData e blob p := by
   obtain ⟨k, f, l, hk, hpl, hf, hl⟩ := AsmConc.selfseed_prefix_finished hwf h p hp
   exact AsmConc.settled_correct hwf h p (Or.inl ⟨k, f, l, hk, hpl, hf, hl⟩)
+
+/-- **what an accepted trace means.**  The trace validation (driver command `asmconc.accept`) maps the recorded
+    events of a real run of `AssembleFile` with several workers to machine events and runs them with
+    `AsmConc.run`; whenever that run goes through, its final state has the indexed length, is the blob if every plan
+    item completed, and everything the self seed offers holds its final bytes. -/
+theorem accepted_trace_safe {e : AsmConc.Env} {blob prior : Bytes} {n : Nat} {evs : List AsmConc.Ev} {s : AsmConc.St}
+    (hwf : AsmConc.WF e blob) (h : AsmConc.run e (AsmConc.init e prior n) evs = some s) :
+    s.file.length = blob.length ∧ (AsmConc.Done e s → s.file = blob) ∧
+    ∀ p, p < s.ss.written → readUpTo s.file (e.startOf p) (e.sizeOf p) = AsmConc.chunkData e blob p :=
+  have hr := AsmConc.run_reachable evs _ s AsmConc.Reachable.refl h
+  ⟨AsmConc.conc_length hwf hr, AsmConc.conc_safe hwf hr, fun p hp => selfseed_offers_settled hwf hr p hp⟩
+
+/-- the hypotheses of `accepted_trace_safe` can be met: a run of two workers that ends `Done` -/
+example : ∃ s, AsmConc.run AsmConc.Example.env (AsmConc.init AsmConc.Example.env AsmConc.Example.prior 2)
+    AsmConc.Example.events = some s ∧ s.file = AsmConc.Example.blob := ⟨_, rfl, rfl⟩
 
 /-- the concurrent machine never gets stuck before it is done (with a complete sound store) -/
 theorem no_deadlock {e : AsmConc.Env} {blob prior : Bytes} {n : Nat} {s : AsmConc.St}
